@@ -2,6 +2,7 @@ import XModel.Unique
 import XModel.Capstone
 import XModel.ManagerC20
 import XModel.ManagerC20Fn
+import XModel.ManagerBisim2
 import XProofs.Properties.C01
 /-!
 # C20 — results do not depend on the build or the hash seed
@@ -12,15 +13,19 @@ parameter `sched`.  Proved on the executable manager (`XModel/Manager.lean`, the
 
 * `C20_set_value`, `C20_set_expr` — for an assignment in scope, *any two* legal schedules give the same container
   tree, the same definitions and the same indices, and the second completes whenever the first does;
-* `C20_histories` — over whole histories of in-scope assignments and maintenance calls the two schedulers lead
-  through identical states (event log aside, which is the order itself).
+* `C20_histories` — over whole histories of in-scope assignments and maintenance calls the two schedulers end in
+  identical states (event log aside, which is the order itself); `C20_histories_per_call` — the same call by call
+  (state after every call and error of every call), for managers that may also hold function tasks and knobs
+  (scope `GoodRunR`, `XModel/ManagerBisim2.lean`).
 
 The scope is C01's (`Scope`): outside it — two tasks writing below one nested container and feeding each other,
 known finding D1 — the result *does* depend on the order, in the model (`C20_order_matters_outside_scope`) and in
 the code.  All theorems of this file are about the hash-seed half only (`_partial` in that sense, whatever their
 names):  the equality of the Cython build and the interpreted build is not a statement about the
 model; both builds are compared with the model and with each other by the check (transcripts over
-{pure, compiled} × PYTHONHASHSEED).  Histories with errors inside `run_tasks` are compared only by the check.
+{pure, compiled} × PYTHONHASHSEED).  Histories with errors inside `run_tasks` are compared only by the check: there the
+two seeds need not raise the same error (`Properties.C03.C03_failing_orders_differ`); what the model guarantees then is
+`Properties.C03.C03_assignment_any_outcome`.
 -/
 namespace Properties.C20
 open Store Push Index Manager
@@ -64,7 +69,9 @@ theorem C20_set_expr (sched1 sched2 : Sched) (s : MState) (p : Path) (e : Expr) 
   obtain ⟨s2, h, e1, e2, e3, _⟩ := setExpr_sched_indep sched1 sched2 s p e hi hc sc hvs1 hvs2 s1 hok
   exact ⟨s2, h, e1, e2, e3⟩
 
-/-- **all histories**: two schedulers lead through the same states -/
+/-- **all histories** (FINAL state only; expression-task managers, completing assignments, no `register` / `load` /
+    in-place operators — `GoodRun2`): the two schedulers end in the same state.  The call-by-call form over the wider
+    class of histories is `C20_histories_per_call`. -/
 theorem C20_histories (sched1 sched2 : Sched) (cs : List Call) (s : MState) (hi : MInv s) (hc : Consistent s)
     (hg : GoodRun2 sched1 sched2 s cs) : applyAllR sched2 s cs = applyAllR sched1 s cs :=
   history_sched_indep sched1 sched2 cs s hi hc hg
@@ -113,5 +120,44 @@ theorem C20_function_tasks_decided (sched1 sched2 : Sched) (s : MState) (p : Pat
     `[c, #G]` are both legal and the hypotheses hold -/
 example : scopeFB C20FnExample.sG C20FnExample.da = true ∧ targetsExistB C20FnExample.sG C20FnExample.da = true :=
   ⟨C20FnExample.sG_hyps.1, C20FnExample.sG_hyps.2.1⟩
+
+/-! ### outcomes call by call (C03's bisimulation at `s' = s`, `XModel/ManagerBisim2.lean`) -/
+
+/-- **all histories, call by call**: one manager run through the same history under two schedulers (two hash seeds):
+    the two lists of outcomes — the state after EVERY call (event log cleared per call, as the driver does) and the
+    error EVERY call returned — are equal.  Scope `GoodRunR`: every call satisfies `CallOK'` at `s' = s`, i.e.
+    register / unregister / load / refresh / cleanup / verify freely (managers may hold expression, function and knob
+    tasks); an assignment or in-place operator if it raises before any task runs, or the two schedulers return the same
+    order, or it is in the scope `ScopeT` (triggered tasks: expression / soundly declared function tasks), both orders are
+    legal and it completes under the first.  Assignments that raise WHILE tasks run under two different orders are not
+    covered — there the two seeds may raise different errors (`Properties.C03.C03_failing_orders_differ`). -/
+theorem C20_histories_per_call (sched1 sched2 : Sched) (cs : List Call) (s : MState) (hi : MInv s)
+    (hg : GoodRunR sched1 sched2 s cs) : outcomesR sched2 s cs = outcomesR sched1 s cs :=
+  history_per_call sched1 sched2 cs s hi hg
+
+/-- the same under the hypotheses of `C20_histories` themselves (`GoodRun2` and a consistent start): they are a
+    special case of `GoodRunR` -/
+theorem C20_histories_per_call_expr (sched1 sched2 : Sched) (cs : List Call) (s : MState) (hi : MInv s)
+    (hc : Consistent s) (hg : GoodRun2 sched1 sched2 s cs) : outcomesR sched2 s cs = outcomesR sched1 s cs :=
+  history_per_call_GoodRun2 sched1 sched2 cs s hi hc hg
+
+/-- the final states agree (the conclusion of `C20_histories`, over the wider class `GoodRunR`) -/
+theorem C20_histories_final_state (sched1 sched2 : Sched) (cs : List Call) (s : MState) (hi : MInv s)
+    (hg : GoodRunR sched1 sched2 s cs) : applyAllR sched2 s cs = applyAllR sched1 s cs :=
+  history_per_call_final sched1 sched2 cs s hi hg
+
+/-- the indices after a call never depend on the scheduler — no hypothesis at all (`run_tasks` does not touch them) -/
+theorem C20_indices_independent_of_order (sched1 sched2 : Sched) (s : MState) (c : Call) :
+    (apply sched2 s c).1.idx = (apply sched1 s c).1.idx :=
+  apply_idx_sched sched1 sched2 s c
+
+/-- non-vacuity, with two genuinely different legal schedules: the manager of `Bisim2Example` (two expression
+    definitions, a function task, a linear knob) under the seeds `id` and `fLast` (`#F` moved to the end), 18 calls;
+    the event logs of the first call differ, the outcomes do not -/
+example : GoodRunR id Bisim2Example.fLast Bisim2Example.sM Bisim2Example.hist := Bisim2Example.hist_two_seeds
+example : outcomesR Bisim2Example.fLast Bisim2Example.sM Bisim2Example.hist =
+    outcomesR id Bisim2Example.sM Bisim2Example.hist :=
+  C20_histories_per_call id Bisim2Example.fLast Bisim2Example.hist Bisim2Example.sM Bisim2Example.sM_inv
+    Bisim2Example.hist_two_seeds
 
 end Properties.C20
